@@ -2,6 +2,25 @@
 batching never hides which case failed and never masks a case behind another."""
 from . import driver
 
+# Where the batched program stands.  "plain": it is the one source file.  In the thorough tier every batch is assembled
+# twice more: as the body of a file included from a main file that holds nothing else, and as the second of two linked files
+# after a first file that holds only a comment.  The statements, and therefore the expected image, are the same.
+CONTEXTS = ("plain",)
+
+
+def set_tier(tier):
+    global CONTEXTS
+    CONTEXTS = ("plain", "included", "second-file") if tier == "thorough" else ("plain",)
+
+
+def files_for(context, text):
+    """(files, extra tree entries) that put the program text into the given context"""
+    if context == "included":
+        return [("main.mac", "\t.include \"sub/b.mac\"\n")], {"sub/b.mac": text}
+    if context == "second-file":
+        return [("first.mac", "; nothing here\n"), ("b.mac", text)], {}
+    return [("b.mac", text)], {}
+
 
 def run_valid_batch(items, r, pid, prefix="", suffix="", charset="bk", base=None, tree=None, describe=None,
                     prefix_bytes=b"", suffix_bytes=b"", start=None):
@@ -10,7 +29,15 @@ def run_valid_batch(items, r, pid, prefix="", suffix="", charset="bk", base=None
     around the statements producing prefix_bytes/suffix_bytes; start = address of the first byte of the image."""
     r.extra["assembler_runs"] += 0
     ctx = (prefix_bytes, suffix_bytes, start if start is not None else (base if base is not None else 0o1000))
-    _bisect(items, r, pid, prefix, suffix, charset, base, tree, describe, ctx)
+    for context in CONTEXTS:
+        its = items
+        if context == "included":
+            # an included file is read from disk in text mode (universal newlines), the main file of the driver is handed over
+            # as a string: a raw carriage return inside a statement is a different input there, so such statements stay out
+            its = [it for it in items if "\r" not in it[1]]
+            if not its or "\r" in prefix + suffix:
+                continue
+        _bisect(its, r, pid, prefix, suffix, charset, base, tree, describe, ctx, context)
 
 
 def expected_of(items, ctx):
@@ -24,30 +51,35 @@ def expected_of(items, ctx):
     return pre + b"".join(parts) + suf, parts
 
 
-def _bisect(items, r, pid, prefix, suffix, charset, base, tree, describe, ctx=(b"", b"", 0o1000)):
+def _bisect(items, r, pid, prefix, suffix, charset, base, tree, describe, ctx=(b"", b"", 0o1000), context="plain"):
     text = prefix + "".join(it[1] + "\n" for it in items) + suffix
-    out = driver.assemble([("b.mac", text)], charset=charset, tree=tree)
+    files, more = files_for(context, text)
+    if more:
+        tree = dict(tree or {}, **more)
+    out = driver.assemble(files, charset=charset, tree=tree)
     r.extra["assembler_runs"] += 1
     want, parts = expected_of(items, ctx)
     good = out.status == "ok" and out.code == want and (base is None or out.base == base)
     if good:
         for it in items:
-            r.ran("ok", key=it[0])
+            r.ran("ok", key=it[0] if context == "plain" else (context, it[0]))
         return
     if len(items) == 1:
         it = items[0]
-        r.ran(out.cls(), key=it[0])
+        r.ran(out.cls(), key=it[0] if context == "plain" else (context, it[0]))
         sig, what = classify_mismatch(out, want)
+        if context != "plain":
+            sig += ":" + context
         d = describe(it) if describe else {}
-        c = {"kind": "single", "key": it[0], "text": text, "charset": charset, "expected_hex": want.hex()}
+        c = {"kind": "single", "key": it[0], "text": text, "charset": charset, "expected_hex": want.hex(), "context": context}
         if tree:
             c["tree"] = {k: (v if isinstance(v, str) else {"hex": v.hex()}) for k, v in tree.items()}
         r.violation(sig + (":" + d["family"] if d.get("family") else ""), what, c,
                     expected={"status": "ok", "bytes": want.hex() if len(want) < 200 else want[:200].hex() + "..."}, observed=out.brief())
         return
     mid = len(items) // 2
-    _bisect(items[:mid], r, pid, prefix, suffix, charset, base, tree, describe, ctx)
-    _bisect(items[mid:], r, pid, prefix, suffix, charset, base, tree, describe, ctx)
+    _bisect(items[:mid], r, pid, prefix, suffix, charset, base, tree, describe, ctx, context)
+    _bisect(items[mid:], r, pid, prefix, suffix, charset, base, tree, describe, ctx, context)
 
 
 def classify_mismatch(out, want):
@@ -80,7 +112,11 @@ def expect_error(text, r, key, case, charset="bk", tree=None, files=None):
 def replay_single(case, r):
     """Re-check one statement that bisection singled out (used by --replay and shrinking)."""
     want = bytes.fromhex(case["expected_hex"])
-    out = driver.assemble([("b.mac", case["text"])], charset=case.get("charset", "bk"), tree=_untree(case.get("tree")))
+    files, more = files_for(case.get("context", "plain"), case["text"])
+    tree = _untree(case.get("tree"))
+    if more:
+        tree = dict(tree or {}, **{k: v for k, v in more.items() if k not in (tree or {})})
+    out = driver.assemble(files, charset=case.get("charset", "bk"), tree=tree)
     r.ran(out.cls(), key=case.get("key"))
     if not (out.status == "ok" and out.code == want):
         sig, what = classify_mismatch(out, want)
